@@ -121,10 +121,21 @@ def apply_spec(fns, path):
 
 
 def load_unit(name):
-    path = os.path.join(VERIF, 'units', name + '.py')
-    spec = importlib.util.spec_from_file_location('vx_unit_' + name, path)
+    """`unit@variant` loads the same recipe with VX_UNIT_VARIANT set (smaller physical maxima for the heaviest functions)"""
+    base, _, variant = name.partition('@')
+    path = os.path.join(VERIF, 'units', base + '.py')
+    spec = importlib.util.spec_from_file_location('vx_unit_' + name.replace('@', '_'), path)
     mod = importlib.util.module_from_spec(spec)
-    spec.loader.exec_module(mod)
+    old = os.environ.get('VX_UNIT_VARIANT')
+    os.environ['VX_UNIT_VARIANT'] = variant
+    try:
+        spec.loader.exec_module(mod)
+    finally:
+        if old is None:
+            os.environ.pop('VX_UNIT_VARIANT', None)
+        else:
+            os.environ['VX_UNIT_VARIANT'] = old
+    mod.UNIT.name = name.replace('@', '_')
     return mod.UNIT
 
 
